@@ -240,7 +240,7 @@ def run(prog: Program, res: Result) -> None:  # noqa: PLR0912, PLR0915
     _mapping_protocol_rule(prog, res)
     _cast_belief_rule(prog, res)
     # ------------------------------------------------------------------ R3 boundary converters
-    res.rule("C02.R3", "Filter.evaluate[_async] wraps the dynamic filter call in a handler converting (TypeError, ValueError, ArithmeticError, LookupError, AttributeError) to LiquidTypeError; render_with_context converts stray LiquidInterrupts")
+    res.rule("C02.R3", "Filter.evaluate[_async] wraps the dynamic filter call in a handler converting (TypeError, ValueError, ArithmeticError, LookupError, AttributeError, OSError) to LiquidTypeError; render_with_context converts stray LiquidInterrupts")
     flt = prog.mod("liquid2/builtin/expressions.py").classes.get("Filter")
     if flt is None:
         raise AnalysisError("Filter class vanished")
@@ -259,7 +259,7 @@ def run(prog: Program, res: Result) -> None:  # noqa: PLR0912, PLR0915
                     if any(isinstance(r, ast.Raise) and r.exc is not None and "LiquidTypeError" in norm(r.exc) for r in ast.walk(h)):
                         caught |= set(cls)
                         converts = True
-                need = (TypeError, ValueError, ArithmeticError, LookupError, AttributeError)
+                need = (TypeError, ValueError, ArithmeticError, LookupError, AttributeError, OSError)
                 missing = [n.__name__ for n in need if not any(issubclass(n, c) for c in caught)]
                 ok = converts and not missing
                 why = "converted: " + ", ".join(sorted(c.__name__ for c in caught)) if ok else f"not converted: {missing}"
